@@ -4,6 +4,7 @@ NODE = "src/allmydata/immutable/downloader/node.py"
 SHARE = "src/allmydata/immutable/downloader/share.py"
 FETCH = "src/allmydata/immutable/downloader/fetcher.py"
 SEG = "src/allmydata/immutable/downloader/segmentation.py"
+FN = "src/allmydata/immutable/filenode.py"
 
 MUTANTS = [
     M("ueb-compare-deleted", NODE,
@@ -110,6 +111,93 @@ MUTANTS = [
               "share_hashes_size = table[\"uri_extension\"] - table[\"share_hashes\"]"),
              (SHARE, "block_hashes_size = offsets[\"share_hashes\"] - offsets[\"block_hashes\"]",
               "block_hashes_size = table[\"share_hashes\"] - table[\"block_hashes\"]")]),
+    # ---- C02.12 provenance of the AES-CTR context that decrypts the validated ciphertext
+    M("decryptor-of-the-previous-read-handed-to-the-next-consumer", FN,
+      "    def __init__(self, consumer, readkey, offset):\n        self._consumer = consumer\n        self._read_ev = None\n        self._download_status = None\n",
+      "    def __init__(self, consumer, readkey, offset, decryptor=None):\n        self._consumer = consumer\n        self._read_ev = None\n        self._download_status = None\n"
+      "        if decryptor is not None:\n            self._decryptor = decryptor\n            return\n", "C02.12",
+      edits=[(FN, "        decryptor = DecryptingConsumer(consumer, self._readkey, offset)\n        d = self._cnode.read(decryptor, offset, size)\n",
+              "        resume = None\n"
+              "        ks = getattr(self, \"_keystream\", None)\n"
+              "        if ks is not None and ks[0] == offset:\n            resume = ks[1]\n"
+              "        self._keystream = None\n"
+              "        decryptor = DecryptingConsumer(consumer, self._readkey, offset, resume)\n"
+              "        d = self._cnode.read(decryptor, offset, size)\n"
+              "        def _finished(res):\n"
+              "            if size is not None:\n                self._keystream = (offset + size, decryptor._decryptor)\n"
+              "            return res\n"
+              "        d.addBoth(_finished)\n")]),
+    M("decryptors-cached-per-key-and-block", FN,
+      "        self._decryptor = aes.create_decryptor(readkey, iv)\n",
+      "        self._decryptor = DecryptingConsumer.__dict__.setdefault(\"_ctrs\", {}).setdefault(\n"
+      "            (readkey, offset_big), aes.create_decryptor(readkey, iv))\n", "C02.12"),
+    M("filenode-swaps-in-the-decryptor-it-kept", FN,
+      "        decryptor = DecryptingConsumer(consumer, self._readkey, offset)\n        d = self._cnode.read(decryptor, offset, size)\n",
+      "        decryptor = DecryptingConsumer(consumer, self._readkey, offset)\n"
+      "        kept = getattr(self, \"_kept\", None)\n"
+      "        if kept is not None and kept[0] == offset:\n            decryptor._decryptor = kept[1]\n"
+      "        d = self._cnode.read(decryptor, offset, size)\n", "C02.12"),
+    M("decrypting-consumer-reused-for-the-next-read", FN,
+      "        decryptor = DecryptingConsumer(consumer, self._readkey, offset)\n        d = self._cnode.read(decryptor, offset, size)\n",
+      "        decryptor = getattr(self, \"_last_dc\", None)\n"
+      "        if decryptor is None or decryptor._consumer is not consumer:\n"
+      "            decryptor = DecryptingConsumer(consumer, self._readkey, offset)\n"
+      "        self._last_dc = decryptor\n"
+      "        d = self._cnode.read(decryptor, offset, size)\n", "C02.12"),
+    M("benign-decrypting-consumer-takes-a-log-parent", FN,
+      "    def __init__(self, consumer, readkey, offset):\n        self._consumer = consumer\n        self._read_ev = None\n",
+      "    def __init__(self, consumer, readkey, offset, logparent=None):\n        self._consumer = consumer\n        self._lp = logparent\n        self._read_ev = None\n",
+      None),
+    M("benign-decryptor-bound-to-a-local-first", FN,
+      "        self._decryptor = aes.create_decryptor(readkey, iv)\n",
+      "        ctr = aes.create_decryptor(readkey, iv)\n        self._decryptor = ctr\n", None),
+    # ---- C02.13 one byte source per read
+    M("read-retried-from-the-original-offset-when-shares-run-out", NODE,
+      "        d = s.start()\n        def _done(res):\n            read_ev.finished(now())\n",
+      "        d = s.start()\n"
+      "        def _retry(f):\n"
+      "            from allmydata.interfaces import NotEnoughSharesError, NoSharesError\n"
+      "            f.trap(NotEnoughSharesError, NoSharesError)\n"
+      "            if not self.running or self._active_segment is not None:\n                return f\n"
+      "            s2 = Segmentation(self, offset, size, consumer, read_ev, lp)\n"
+      "            return s2.start()\n"
+      "        d.addErrback(_retry)\n"
+      "        def _done(res):\n            read_ev.finished(now())\n", "C02.13"),
+    M("filenode-reads-again-when-the-read-failed", FN,
+      "        d = self._cnode.read(decryptor, offset, size)\n",
+      "        d = self._cnode.read(decryptor, offset, size)\n"
+      "        d.addErrback(lambda f: self._cnode.read(DecryptingConsumer(consumer, self._readkey, offset), offset, size))\n",
+      "C02.13"),
+    M("second-segmentation-when-the-first-gave-up-at-once", NODE,
+      "        d = s.start()\n        def _done(res):\n            read_ev.finished(now())\n",
+      "        d = s.start()\n"
+      "        if d.called and not s._alive:\n"
+      "            # gave up at once: look again\n"
+      "            s = Segmentation(self, offset, size, consumer, read_ev, lp)\n"
+      "            d = s.start()\n"
+      "        def _done(res):\n            read_ev.finished(now())\n", "C02.13"),
+    M("segmentation-rewinds-to-the-segment-start-on-retry", SEG,
+      "        assert self._node.segment_size is not None\n        return self._maybe_fetch_next()\n",
+      "        assert self._node.segment_size is not None\n"
+      "        self._offset -= self._offset % self._node.segment_size\n"
+      "        return self._maybe_fetch_next()\n", "C02.13"),
+    M("failure-notice-written-to-the-consumer", NODE,
+      "        def _done(res):\n            read_ev.finished(now())\n            return res\n",
+      "        def _done(res):\n            read_ev.finished(now())\n"
+      "            if not isinstance(res, type(consumer)) and res is not consumer:\n"
+      "                consumer.write(b\"\\n[download failed]\\n\")\n"
+      "            return res\n", "C02.13"),
+    M("benign-segmentation-local-renamed", NODE,
+      "        s = Segmentation(self, offset, size, consumer, read_ev, lp)\n",
+      "        seg = Segmentation(self, offset, size, consumer, read_ev, lp)\n", None,
+      edits=[(NODE, "        d = s.start()\n        def _done(res):\n            read_ev.finished(now())\n",
+              "        d = seg.start()\n        def _done(res):\n            read_ev.finished(now())\n")]),
+    M("benign-read-result-replaced-by-a-fired-deferred", FN,
+      "        d.addCallback(lambda dc: consumer)\n        return d\n",
+      "        d.addCallback(lambda dc: defer.succeed(consumer))\n        return d\n", None),
+    M("benign-read-event-closed-by-a-lambda", NODE,
+      "        def _done(res):\n            read_ev.finished(now())\n            return res\n        d.addBoth(_done)\n",
+      "        d.addBoth(lambda res: (read_ev.finished(now()), res)[1])\n", None),
     M("vanish-satisfy-data-block", SHARE,
       "    def _satisfy_data_block(self, segnum, observers):", "    def _satisfy_data_blockX(self, segnum, observers):",
       "ANALYSIS-ERROR"),
